@@ -91,8 +91,16 @@ fn level(v: &Value) -> Value {
     } else if let Some(s) = v.get("s") {
         json!(s.as_i64().unwrap().to_string())
     } else {
-        json!([1])
+        // a value that is neither an integer nor a string that is an integer; the caller chooses the spelling
+        bad_spellings()[BAD_SPELLING.load(std::sync::atomic::Ordering::Relaxed) % bad_spellings().len()].clone()
     }
+}
+
+/// Which spelling `level` uses for a value that is not an integer (index into `bad_spellings`).
+pub static BAD_SPELLING: std::sync::atomic::AtomicUsize = std::sync::atomic::AtomicUsize::new(0);
+
+pub fn bad_spellings() -> Vec<Value> {
+    vec![json!([1]), json!("++5"), json!("abc"), json!("5.0"), json!(""), json!("0x10"), json!("1e2"), json!(true), json!("+-5"), json!({"n": 1})]
 }
 
 fn level_map(m: &Value) -> Value {
